@@ -6,6 +6,8 @@ correspondence: exhaustive 2 x 3^7 per marked setting, 2^7 per plain setting, 2^
 oracle:         last_marked / last_defined written directly from docs/config.md"""
 import itertools
 
+import copy
+
 import core
 from core import coq_Z, coq_bool, coq_list, coq_opt, coq_str, coq_pair
 import impl
@@ -345,6 +347,49 @@ def run(chk):
             chk.case(("r", i, e, s, b), sample=dict(argv=argv, levels=dict(zip(LEVELS, ls)),
                                                      effective=obs_run(run_)) if len(rnd_cases) == 3 else None)
     chk.count("random_runs", len(rnd_cases))
+
+    # ---- 5. one executor used by several experiments and by several execution entries: every use gets the variable lists
+    #         of ITS experiment / execution entry / the machine (the inherited run details are equal in all uses)
+    nshared = 120 if tier == "quick" else 1200
+    for i in range(nshared):
+        def vlist():
+            return rng.choice([None, None, [rng.randint(1, 9)], sorted(rng.sample(range(10, 60), 2))])
+        which = rng.choice(["input_sizes", "cores", "variable_values", "tags"])
+        mach = vlist()
+        exps = {}
+        expect_all = set()
+        expect_by_exp = {}
+        for x in ("X1", "X2"):
+            xl = vlist()
+            entries = []
+            exp_vals = set()
+            for k in range(rng.randint(1, 2)):
+                el = vlist()
+                entries.append({"E": dict({"suites": ["S"]}, **({which: el} if el is not None else {}))})
+                eff = el if el is not None else (xl if xl is not None else mach)
+                exp_vals |= set(eff) if eff is not None else {None}
+            exps[x] = dict({"executions": entries}, **({which: xl} if xl is not None else {}))
+            expect_by_exp[x] = exp_vals
+            expect_all |= exp_vals
+        raw = {"machines": {"m": ({which: mach} if mach is not None else {})},
+               "executors": {"E": {"path": "/x", "executable": "h"}},
+               "benchmark_suites": {"S": {"gauge_adapter": "RebenchLog", "command": "c", "benchmarks": ["B"]}},
+               "experiments": exps}
+        attr = {"input_sizes": "input_size", "cores": "cores", "variable_values": "var_value", "tags": "tag"}[which]
+        norm = (lambda v: 1 if v is None else v) if which == "cores" else (lambda v: v)
+        for sel, want in [(None, expect_all), ("X1", expect_by_exp["X1"]), ("X2", expect_by_exp["X2"])]:
+            try:
+                cnf = impl.configurator(copy.deepcopy(raw), ["-m", "m"], exp_name=sel, validate=False)
+                got = {getattr(r, attr) for r in cnf.get_runs()}
+            except Exception as exc:  # noqa
+                chk.violation("C02 configuration with a shared executor compiles", dict(config=raw, experiment=sel), "compiles", repr(exc))
+                break
+            if got != {norm(v) for v in want}:
+                chk.violation("C02 every use of an executor (experiment, execution entry) gets the variable lists of its own levels",
+                              dict(config=raw, experiment=sel, setting=which), sorted(map(str, {norm(v) for v in want})), sorted(map(str, got)))
+                break
+        chk.case(("shared-executor", i))
+    chk.count("shared_executor_configs", nshared)
 
     # ---- model evaluation and comparison
     try:
